@@ -504,4 +504,217 @@ theorem emitVexEvexM_evexopt_evexonly (c : Model.X86.Ctx) (opcode opReg : BitVec
         extractLLMMMMM opcode 0#32 ||| c.extraId <<< 16 ||| bb <<< 20 ||| 0x80000000#32) ||| 0x10#32 := by bv_decide
   rw [hx, vexEvexMPrefix_forcebit _ _ _ _ _ (by bv_decide)]
 
+/-! ### `evex()` on the memory forms of instructions that also have a VEX encoding: the emission equals the option-free emission of the same
+instruction seen as EVEX-only (context with `vexFlag := false`): both force the EVEX branch, neither force bit is part of the prefix -/
+
+theorem emitModSib_vexFlag (c : Model.X86.Ctx) (pre : List (BitVec 8)) (ao : Nat) (opcode options opReg rbReg rxReg rmInfo : BitVec 32) (m : Mem)
+    (imm : BitVec 64) (n : Nat) (vs dw : Bool) :
+    emitModSib { c with vexFlag := false } pre ao opcode options opReg rbReg rxReg rmInfo m imm n vs dw =
+      emitModSib c pre ao opcode options opReg rbReg rxReg rmInfo m imm n vs dw := by
+  simp only [emitModSib]
+
+theorem emitVexEvexM_evexopt_ctx (c : Model.X86.Ctx) (opcode opReg : BitVec 32) (m : Mem) (imm : BitVec 64) (n : Nat) (hpe : c.preferEvex = false) :
+    emitVexEvexM c opcode oEvex opReg m imm n = emitVexEvexM { c with vexFlag := false } opcode 0#32 opReg m imm n := by
+  have hp : ∀ b : Bool, (c.preferEvex && b) = false := by intro b; rw [hpe]; rfl
+  have e1 : extractLLMMMMM opcode oEvex = extractLLMMMMM opcode 0#32 ||| 0x10#32 := by simp only [extractLLMMMMM, oEvex]; bv_decide
+  have e3 := emitModSib_lowopt oEvex (by decide) c
+  have e4 := emitModSib_vexFlag c
+  have e2 : ∀ x, vexEvexMPrefix c x opcode oEvex m = vexEvexMPrefix c x opcode 0#32 m := by
+    intro x
+    have : ∀ x', vexPrep x' opcode oEvex = vexPrep x' opcode 0#32 := by intro x'; simp only [vexPrep, oEvex, oVex3]; bv_decide
+    simp only [vexEvexMPrefix, this]
+  have e5 : ∀ x, vexEvexMPrefix { c with vexFlag := false } x opcode 0#32 m = vexEvexMPrefix c x opcode 0#32 m := by
+    intro x; simp only [vexEvexMPrefix]
+  have key : ∀ X : BitVec 32, vexEvexMPrefix c (X ||| 0x10#32) opcode 0#32 m = vexEvexMPrefix c (X ||| 0x80000000#32) opcode 0#32 m ∧
+      vexEvexMPrefix c (X ||| 0x10#32 ||| 0x80000000#32) opcode 0#32 m = vexEvexMPrefix c (X ||| 0x80000000#32) opcode 0#32 m := by
+    intro X
+    have a1 : ((X ||| 0x10#32) &&& 0x80DF8110#32 != 0#32) = true := by simp only [bne_iff_ne, ne_eq]; bv_decide
+    have a2 : ((X ||| 0x80000000#32) &&& 0x80DF8110#32 != 0#32) = true := by simp only [bne_iff_ne, ne_eq]; bv_decide
+    have a3 : ((X ||| 0x10#32 ||| 0x80000000#32) &&& 0x80DF8110#32 != 0#32) = true := by simp only [bne_iff_ne, ne_eq]; bv_decide
+    have w1 : evexWord (X ||| 0x10#32) opcode = evexWord (X ||| 0x80000000#32) opcode := by simp only [evexWord]; bv_decide
+    have w2 : evexWord (X ||| 0x10#32 ||| 0x80000000#32) opcode = evexWord (X ||| 0x80000000#32) opcode := by simp only [evexWord]; bv_decide
+    constructor <;> simp only [vexEvexMPrefix, a1, a2, a3, w1, w2, ↓reduceIte, if_true]
+  unfold emitVexEvexM
+  simp only [e1, e2, e3, e4, e5, hp, Bool.false_and, Bool.false_eq_true, ↓reduceIte, bind, Except.bind, Model.X86.Ctx.aoMask,
+    show (oEvex &&& (oZMask ||| oER ||| oSAE) != 0#32) = false from by decide,
+    show ((0#32 : BitVec 32) &&& (oZMask ||| oER ||| oSAE) != 0#32) = false from by decide]
+  generalize ha : (if m.indexType > rtLabel then BitVec.ofNat 32 m.indexId else 0#32) = rx
+  generalize hb : (if m.baseType > rtLabel then BitVec.ofNat 32 m.baseId else 0#32) = rb
+  generalize hc : (if (m.bcst != 0) = true then 1#32 else 0#32) = bb
+  have hx1 : (opReg <<< 4 &&& 0xF980#32 ||| rx <<< 3 &&& 0x40#32 ||| rx <<< 15 &&& 0x80000#32 ||| rb <<< 2 &&& 0x20#32 |||
+        (extractLLMMMMM opcode 0#32 ||| 0x10#32) ||| c.extraId <<< 16 ||| bb <<< 20) =
+      (opReg <<< 4 &&& 0xF980#32 ||| rx <<< 3 &&& 0x40#32 ||| rx <<< 15 &&& 0x80000#32 ||| rb <<< 2 &&& 0x20#32 |||
+        extractLLMMMMM opcode 0#32 ||| c.extraId <<< 16 ||| bb <<< 20) ||| 0x10#32 := by bv_decide
+  have hx2 : (opReg <<< 4 &&& 0xF980#32 ||| rx <<< 3 &&& 0x40#32 ||| rx <<< 15 &&& 0x80000#32 ||| rb <<< 2 &&& 0x20#32 |||
+        (extractLLMMMMM opcode 0#32 ||| 0x10#32) ||| c.extraId <<< 16 ||| bb <<< 20 ||| 0x80000000#32) =
+      (opReg <<< 4 &&& 0xF980#32 ||| rx <<< 3 &&& 0x40#32 ||| rx <<< 15 &&& 0x80000#32 ||| rb <<< 2 &&& 0x20#32 |||
+        extractLLMMMMM opcode 0#32 ||| c.extraId <<< 16 ||| bb <<< 20) ||| 0x10#32 ||| 0x80000000#32 := by bv_decide
+  cases hvf : c.vexFlag
+  · simp only [Bool.false_eq_true, ↓reduceIte, hx2, (key _).2]
+    try rfl
+  · simp only [↓reduceIte, hx1, (key _).1]
+    try rfl
+
+/-- **front_cls_correct with a memory operand and `evex()`**, shape rvm: EVEX forms of instructions that also have a VEX encoding (and of the
+EVEX-only ones), every `AddrForm` instance of the EVEX-only view of the context, masking {k} -/
+theorem front_cls_correct_rvm_mem_evexopt (e : Entry) (ch : List Entry) (hch : ch ∈ rvmChunks) (he : e ∈ ch)
+    (c : Model.X86.Ctx) (ctx : Spec.X86.Ctx) (reg vvvvv xb aaa : BitVec 32) (z : Bool) (size : Nat) (m : Mem) (mo : MemOp) (pfx : List (BitVec 8))
+    (mb : BitVec 32 → BitVec 32 → BitVec 8) (sib : BitVec 32 → BitVec 32 → Option (BitVec 8)) (ds : BitVec 32 → BitVec 32 → List (BitVec 8))
+    (AF : AddrForm { c with vexFlag := false } ctx m mo pfx xb aaa mb sib ds) (hsize : mo.size = size)
+    (D : DecorAllowed e.rule aaa.toNat z false false)
+    (hpe : c.preferEvex = false) (hz : z = false) (hm64 : ctx.mode64 = true)
+    (hsz : ∀ f2, e.rule.ops[2]? = some f2 → hasMemAlt f2 size = true)
+    (hids : e.rule.space = 2 ∧ reg < 32#32 ∧ vvvvv < 32#32) :
+    ∃ bytes k0 k1 k2, e.kinds = [k0, k1, k2] ∧
+      emitVexEvexM c (finalOp e 0x75) oEvex (packRegVvvvv reg.toNat vvvvv.toNat) m 0 0 = .ok bytes ∧
+      formOk ctx e.rule [.reg k0 reg.toNat, .reg k1 vvvvv.toNat, .mem mo] (decorOf aaa.toNat z false false 0) bytes = true := by
+  have hok := mem_chunks_ok rvm_mem_entries_ok e ch hch he
+  unfold entryOkRvmMem at hok
+  split at hok
+  · rename_i f0 f1 f2 k0 k1 k2 hops hkinds
+    have hm2 : hasMemAlt f2 size = true := hsz f2 (by rw [hops]; rfl)
+    simp only [hasMemAlt_any f2 size hm2, Bool.not_true, Bool.false_or, Bool.and_eq_true, Bool.or_eq_true, beq_iff_eq] at hok
+    obtain ⟨-, hC, r0, r1, r2, p0, p1, n0, n1, m0, m1⟩ := hok
+    obtain ⟨R, hmode, -, A, hxop, hvex, hevex⟩ := memCoreOk_spec _ _ _ hC
+    have hal : alignOps e.rule.oszEff e.rule.ops [.reg k0 reg.toNat, .reg k1 vvvvv.toNat, .mem mo] =
+        some [(f0, some (.reg k0 reg.toNat)), (f1, some (.reg k1 vvvvv.toNat)), (f2, some (.mem mo))] := by
+      rw [hops]
+      exact alignOps3 _ _ _ _ _ _ _ (by rw [formOpMatches_reg_nofix _ _ _ _ n0]; exact m0) (by rw [formOpMatches_reg_nofix _ _ _ _ n1]; exact m1)
+        (hasMemAlt_matches _ _ _ _ hm2 hsize AF.hvsib)
+    obtain ⟨hsp, hr, hv⟩ := hids
+    rw [hsp] at A
+    obtain ⟨hs6, hN⟩ := hevex hsp
+    have hev' : ({ c with vexFlag := false } : Model.X86.Ctx).vexFlag = false ∨ (xR (finalOp e 0x75) 0#32 reg vvvvv xb aaa ||| zOpt z) &&& 0x00D78110#32 ≠ 0#32 := Or.inl rfl
+    obtain ⟨bytes, hb', hf⟩ := vexM_rvm_formOk_evex { c with vexFlag := false } ctx e.rule (finalOp e 0x75) reg vvvvv xb aaa z m mo pfx mb sib ds AF k0 k1 f0 f1 f2 hm64 hmode
+      hr hv hxop hev' (plainKind_spec _ p0) (plainKind_spec _ p1) R D hsp A hs6 hN r0 r1 r2 hal
+    refine ⟨bytes, k0, k1, k2, hkinds, ?_, hf⟩
+    rw [emitVexEvexM_evexopt_ctx c _ _ _ _ _ hpe]
+    subst hz
+    rw [packRegVvvvv_eq reg vvvvv hr hv]
+    exact hb'
+  · simp at hok
+
+/-- **front_cls_correct with a memory operand and `evex()`**, shape rm: EVEX forms of instructions that also have a VEX encoding (and of the
+EVEX-only ones), every `AddrForm` instance of the EVEX-only view of the context, masking {k} -/
+theorem front_cls_correct_rm_mem_evexopt (e : Entry) (ch : List Entry) (hch : ch ∈ rmChunks) (he : e ∈ ch)
+    (c : Model.X86.Ctx) (ctx : Spec.X86.Ctx) (reg xb aaa : BitVec 32) (z : Bool) (size : Nat) (m : Mem) (mo : MemOp) (pfx : List (BitVec 8))
+    (mb : BitVec 32 → BitVec 32 → BitVec 8) (sib : BitVec 32 → BitVec 32 → Option (BitVec 8)) (ds : BitVec 32 → BitVec 32 → List (BitVec 8))
+    (AF : AddrForm { c with vexFlag := false } ctx m mo pfx xb aaa mb sib ds) (hsize : mo.size = size)
+    (D : DecorAllowed e.rule aaa.toNat z false false)
+    (hpe : c.preferEvex = false) (hz : z = false) (hm64 : ctx.mode64 = true)
+    (hsz : ∀ f2, e.rule.ops[1]? = some f2 → hasMemAlt f2 size = true)
+    (hids : e.rule.space = 2 ∧ reg < 32#32) :
+    ∃ bytes k0 k2, e.kinds = [k0, k2] ∧
+      emitVexEvexM c (finalOpM e 0x6B size) oEvex (r32 reg.toNat) m 0 0 = .ok bytes ∧
+      formOk ctx e.rule [.reg k0 reg.toNat, .mem mo] (decorOf aaa.toNat z false false 0) bytes = true := by
+  have hok := mem_chunks_ok rm_mem_entries_ok e ch hch he
+  unfold entryOkRmMem at hok
+  split at hok
+  · rename_i f0 f2 k0 k2 hops hkinds
+    have hm2 : hasMemAlt f2 size = true := hsz f2 (by rw [hops]; rfl)
+    have hok := allMemAlts_spec f2 _ size hok hm2
+    simp only [Bool.and_eq_true, Bool.or_eq_true, beq_iff_eq] at hok
+    obtain ⟨-, hC, r0, r2, p0, n0, m0⟩ := hok
+    obtain ⟨R, hmode, -, A, hxop, hvex, hevex⟩ := memCoreOk_spec _ _ _ hC
+    have hal : alignOps e.rule.oszEff e.rule.ops [.reg k0 reg.toNat, .mem mo] =
+        some [(f0, some (.reg k0 reg.toNat)), (f2, some (.mem mo))] := by
+      rw [hops]
+      exact alignOps2 _ _ _ _ _ (by rw [formOpMatches_reg_nofix _ _ _ _ n0]; exact m0) (hasMemAlt_matches _ _ _ _ hm2 hsize AF.hvsib)
+    have e0 : reg + ((0#32 : BitVec 32) <<< 7) = reg := by bv_decide
+    obtain ⟨hsp, hr⟩ := hids
+    rw [hsp] at A
+    obtain ⟨hs6, hN⟩ := hevex hsp
+    have hev' : ({ c with vexFlag := false } : Model.X86.Ctx).vexFlag = false ∨ (xR (finalOpM e 0x6B size) 0#32 reg 0#32 xb aaa ||| zOpt z) &&& 0x00D78110#32 ≠ 0#32 := Or.inl rfl
+    obtain ⟨bytes, hb', hf⟩ := vexM_rm_formOk_evex { c with vexFlag := false } ctx e.rule (finalOpM e 0x6B size) reg xb aaa z m mo pfx mb sib ds AF k0 f0 f2 hm64 hmode
+      hr hxop hev' (plainKind_spec _ p0) R D hsp A hs6 hN r0 r2 hal
+    refine ⟨bytes, k0, k2, hkinds, ?_, hf⟩
+    rw [emitVexEvexM_evexopt_ctx c _ _ _ _ _ hpe]
+    subst hz
+    rw [e0] at hb'
+    simpa [r32, zOpt] using hb'
+  · simp at hok
+
+/-- **front_cls_correct with a memory operand and `evex()`**, shape rvmi: EVEX forms of instructions that also have a VEX encoding (and of the
+EVEX-only ones), every `AddrForm` instance of the EVEX-only view of the context, masking {k} -/
+theorem front_cls_correct_rvmi_mem_evexopt (e : Entry) (ch : List Entry) (hch : ch ∈ rvmiChunks) (he : e ∈ ch)
+    (c : Model.X86.Ctx) (ctx : Spec.X86.Ctx) (reg vvvvv xb aaa : BitVec 32) (z : Bool) (size : Nat) (m : Mem) (mo : MemOp) (pfx : List (BitVec 8)) (imm : BitVec 64)
+    (mb : BitVec 32 → BitVec 32 → BitVec 8) (sib : BitVec 32 → BitVec 32 → Option (BitVec 8)) (ds : BitVec 32 → BitVec 32 → List (BitVec 8))
+    (AF : AddrForm { c with vexFlag := false } ctx m mo pfx xb aaa mb sib ds) (hsize : mo.size = size)
+    (D : DecorAllowed e.rule aaa.toNat z false false)
+    (hpe : c.preferEvex = false) (hz : z = false) (hm64 : ctx.mode64 = true)
+    (hsz : ∀ f2, e.rule.ops[2]? = some f2 → hasMemAlt f2 size = true)
+    (himm : ∀ f3, e.rule.ops[3]? = some f3 → formOpMatches e.rule.oszEff f3 (.imm imm) = true)
+    (hids : e.rule.space = 2 ∧ reg < 32#32 ∧ vvvvv < 32#32) :
+    ∃ bytes k0 k1 k2, e.kinds = [k0, k1, k2] ∧
+      emitVexEvexM c (finalOp e 0x7C) oEvex (packRegVvvvv reg.toNat vvvvv.toNat) m imm 1 = .ok bytes ∧
+      formOk ctx e.rule [.reg k0 reg.toNat, .reg k1 vvvvv.toNat, .mem mo, .imm imm] (decorOf aaa.toNat z false false 0) bytes = true := by
+  have hok := mem_chunks_ok rvmi_mem_entries_ok e ch hch he
+  unfold entryOkRvmiMem at hok
+  split at hok
+  · rename_i f0 f1 f2 f3 k0 k1 k2 hops hkinds
+    have hm2 : hasMemAlt f2 size = true := hsz f2 (by rw [hops]; rfl)
+    have m3 : formOpMatches e.rule.oszEff f3 (.imm imm) = true := himm f3 (by rw [hops]; rfl)
+    simp only [hasMemAlt_any f2 size hm2, Bool.not_true, Bool.false_or, Bool.and_eq_true, Bool.or_eq_true, beq_iff_eq] at hok
+    obtain ⟨-, hC, r0, r1, r2, r3, hib, p0, p1, n0, n1, m0, m1⟩ := hok
+    obtain ⟨R, hmode, -, A, hxop, hvex, hevex⟩ := memCoreOk_spec _ _ _ hC
+    have hal : alignOps e.rule.oszEff e.rule.ops [.reg k0 reg.toNat, .reg k1 vvvvv.toNat, .mem mo, .imm imm] =
+        some [(f0, some (.reg k0 reg.toNat)), (f1, some (.reg k1 vvvvv.toNat)), (f2, some (.mem mo)), (f3, some (.imm imm))] := by
+      rw [hops]
+      exact alignOps4 _ _ _ _ _ _ _ _ _ (by rw [formOpMatches_reg_nofix _ _ _ _ n0]; exact m0) (by rw [formOpMatches_reg_nofix _ _ _ _ n1]; exact m1)
+        (hasMemAlt_matches _ _ _ _ hm2 hsize AF.hvsib) m3
+    obtain ⟨hsp, hr, hv⟩ := hids
+    rw [hsp] at A
+    obtain ⟨hs6, hN⟩ := hevex hsp
+    have hev' : ({ c with vexFlag := false } : Model.X86.Ctx).vexFlag = false ∨ (xR (finalOp e 0x7C) 0#32 reg vvvvv xb aaa ||| zOpt z) &&& 0x00D78110#32 ≠ 0#32 := Or.inl rfl
+    obtain ⟨bytes, hb', hf⟩ := vexM_rvmi_formOk_evex { c with vexFlag := false } ctx e.rule (finalOp e 0x7C) reg vvvvv xb aaa z m mo pfx mb sib ds AF k0 k1 f0 f1 f2 hm64 hmode
+      hr hv hxop hev' (plainKind_spec _ p0) (plainKind_spec _ p1) R D f3 imm r3 hib hsp A hs6 hN r0 r1 r2 hal
+    refine ⟨bytes, k0, k1, k2, hkinds, ?_, hf⟩
+    rw [emitVexEvexM_evexopt_ctx c _ _ _ _ _ hpe]
+    subst hz
+    rw [packRegVvvvv_eq reg vvvvv hr hv]
+    exact hb'
+  · simp at hok
+
+/-- **front_cls_correct with a memory operand and `evex()`**, shape rmi: EVEX forms of instructions that also have a VEX encoding (and of the
+EVEX-only ones), every `AddrForm` instance of the EVEX-only view of the context, masking {k} -/
+theorem front_cls_correct_rmi_mem_evexopt (e : Entry) (ch : List Entry) (hch : ch ∈ rmiChunks) (he : e ∈ ch)
+    (c : Model.X86.Ctx) (ctx : Spec.X86.Ctx) (reg xb aaa : BitVec 32) (z : Bool) (size : Nat) (m : Mem) (mo : MemOp) (pfx : List (BitVec 8)) (imm : BitVec 64)
+    (mb : BitVec 32 → BitVec 32 → BitVec 8) (sib : BitVec 32 → BitVec 32 → Option (BitVec 8)) (ds : BitVec 32 → BitVec 32 → List (BitVec 8))
+    (AF : AddrForm { c with vexFlag := false } ctx m mo pfx xb aaa mb sib ds) (hsize : mo.size = size)
+    (D : DecorAllowed e.rule aaa.toNat z false false)
+    (hpe : c.preferEvex = false) (hz : z = false) (hm64 : ctx.mode64 = true)
+    (hsz : ∀ f2, e.rule.ops[1]? = some f2 → hasMemAlt f2 size = true)
+    (himm : ∀ f3, e.rule.ops[2]? = some f3 → formOpMatches e.rule.oszEff f3 (.imm imm) = true)
+    (hids : e.rule.space = 2 ∧ reg < 32#32) :
+    ∃ bytes k0 k2, e.kinds = [k0, k2] ∧
+      emitVexEvexM c (finalOpM e 0x71 size) oEvex (r32 reg.toNat) m imm 1 = .ok bytes ∧
+      formOk ctx e.rule [.reg k0 reg.toNat, .mem mo, .imm imm] (decorOf aaa.toNat z false false 0) bytes = true := by
+  have hok := mem_chunks_ok rmi_mem_entries_ok e ch hch he
+  unfold entryOkRmiMem at hok
+  split at hok
+  · rename_i f0 f2 f3 k0 k2 hops hkinds
+    have hm2 : hasMemAlt f2 size = true := hsz f2 (by rw [hops]; rfl)
+    have m3 : formOpMatches e.rule.oszEff f3 (.imm imm) = true := himm f3 (by rw [hops]; rfl)
+    have hok := allMemAlts_spec f2 _ size hok hm2
+    simp only [Bool.and_eq_true, Bool.or_eq_true, beq_iff_eq] at hok
+    obtain ⟨-, hC, r0, r2, r3, hib, p0, n0, m0⟩ := hok
+    obtain ⟨R, hmode, -, A, hxop, hvex, hevex⟩ := memCoreOk_spec _ _ _ hC
+    have hal : alignOps e.rule.oszEff e.rule.ops [.reg k0 reg.toNat, .mem mo, .imm imm] =
+        some [(f0, some (.reg k0 reg.toNat)), (f2, some (.mem mo)), (f3, some (.imm imm))] := by
+      rw [hops]
+      exact alignOps3i _ _ _ _ _ _ _ (by rw [formOpMatches_reg_nofix _ _ _ _ n0]; exact m0) (hasMemAlt_matches _ _ _ _ hm2 hsize AF.hvsib) m3
+    have e0 : reg + ((0#32 : BitVec 32) <<< 7) = reg := by bv_decide
+    obtain ⟨hsp, hr⟩ := hids
+    rw [hsp] at A
+    obtain ⟨hs6, hN⟩ := hevex hsp
+    have hev' : ({ c with vexFlag := false } : Model.X86.Ctx).vexFlag = false ∨ (xR (finalOpM e 0x71 size) 0#32 reg 0#32 xb aaa ||| zOpt z) &&& 0x00D78110#32 ≠ 0#32 := Or.inl rfl
+    obtain ⟨bytes, hb', hf⟩ := vexM_rmi_formOk_evex { c with vexFlag := false } ctx e.rule (finalOpM e 0x71 size) reg xb aaa z m mo pfx mb sib ds AF k0 f0 f2 hm64 hmode
+      hr hxop hev' (plainKind_spec _ p0) R D f3 imm r3 hib hsp A hs6 hN r0 r2 hal
+    refine ⟨bytes, k0, k2, hkinds, ?_, hf⟩
+    rw [emitVexEvexM_evexopt_ctx c _ _ _ _ _ hpe]
+    subst hz
+    rw [e0] at hb'
+    simpa [r32, zOpt] using hb'
+  · simp at hok
+
 end AsmjitVerif.Props.C01
